@@ -80,7 +80,25 @@ func (w *WFile) WriteAt(p []byte, off int64) (int, error) {
 	if short >= 0 && short < len(p) { // short write without error
 		return w.f.WriteAt(p[:short], off)
 	}
-	return w.f.WriteAt(p, off)
+	n, e := w.f.WriteAt(p, off)
+	if e != nil && n == 0 {
+		w.log.refused(w.name, off, e) // nothing was written (for instance a read-only descriptor)
+	}
+	return n, e
+}
+
+// refused marks the most recent recorded write of name at off as one the operating system refused.
+func (l *FileLog) refused(name string, off int64, e error) {
+	l.mu.Lock()
+	defer l.mu.Unlock()
+	for i := len(l.Ops) - 1; i >= 0; i-- {
+		if op := &l.Ops[i]; op.Op == "writeAt" && op.Name == name && op.Off == off {
+			if op.Err == "" {
+				op.Err = "refused: " + e.Error()
+			}
+			return
+		}
+	}
 }
 
 func (w *WFile) Close() error {
